@@ -387,6 +387,7 @@ class Orchestrator:  # thailint: ignore[srp]
             return []
         except ValueError:
             # Re-raise configuration validation errors (these are user-facing)
+            _verif_emit("abort", rule=rule.rule_id, path=str(context.file_path))
             raise
         except Exception:
             _verif_fail("check", rule.rule_id, context.file_path, sys.exc_info()[1])
